@@ -38,7 +38,7 @@ def drop(d):
 
 def suite(tree):
     junit = tempfile.mktemp(suffix=".xml")
-    rc, out = sh(f"/venv/bin/python -m pytest -q -p no:cacheprovider --timeout=900 --continue-on-collection-errors --junitxml={junit} src/tests", cwd=tree)
+    rc, out = sh(f"/venv/bin/python -m pytest -q -p no:cacheprovider --timeout=900 --continue-on-collection-errors --junitxml={junit}", cwd=tree)
     import xml.etree.ElementTree as ET
     passed = set()
     try:
@@ -48,6 +48,7 @@ def suite(tree):
     finally:
         if os.path.exists(junit):
             os.unlink(junit)
+    passed |= {"src." + t for t in passed}
     missing = [t for t in BASE["stable_pass"] if t not in passed]
     return missing, out[-600:]
 
@@ -66,6 +67,32 @@ def apply(tree, d):
     if rc != 0:
         rc, out = sh(f"git apply -3 --whitespace=nowarn {d}/patch.diff", cwd=tree)
     return rc, out
+
+
+def adopt(prop, src, name):
+    """confirm <src>; if confirmed copy to /verif/seeded/<prop>-<name>/ with meta.json"""
+    import shutil, io, contextlib
+    buf = io.StringIO()
+    with contextlib.redirect_stdout(buf):
+        rc = confirm(src)
+    res = json.loads(buf.getvalue())
+    print(json.dumps({k: (res[k][:4] if isinstance(res[k], list) else res[k]) for k in res if k in ("confirmed", "demo_clean_rc", "demo_patched_rc", "suite_missing", "apply_rc")}))
+    if rc != 0:
+        return 1
+    dst = os.path.join(VERIF, "seeded", f"{prop}-{name}")
+    os.makedirs(dst, exist_ok=True)
+    for f in ("patch.diff", "demo.py", "notes.md"):
+        if os.path.exists(os.path.join(src, f)):
+            shutil.copy(os.path.join(src, f), os.path.join(dst, f))
+    rc_, head = sh("git -C /repo rev-parse --short HEAD")
+    meta = {"property": prop, "id": f"{prop}-{name}", "origin": "independent sub-agent given only the property text",
+            "base_commit": head.strip(),
+            "confirmed": {"demo_passes_on_clean_tree": True, "pinned_suite_passes_with_patch": True,
+                          "demo_fails_with_patch": True, "demo_patched_rc": res["demo_patched_rc"]},
+            "ran": ["harness/seedtool.py confirm (fresh worktree: demo clean, git apply, pytest src/tests vs BASELINE stable_pass, demo patched)"],
+            "needs_to_manifest": "see notes.md", "detected_by": None}
+    json.dump(meta, open(os.path.join(dst, "meta.json"), "w"), indent=1)
+    return 0
 
 
 def confirm(d):
@@ -108,6 +135,12 @@ def run(prop, d, tier="quick"):
         viol = re.findall(r"^VIOLATION .*$", out, re.M)
         sh(f"rm -rf {VERIF}/coq/Gen/{tag} /tmp/{tag}_ev")
         print(json.dumps({"check_rc": rc, "violations": viol[:5], "n_violations": len(viol), "tail": out[-500:]}, indent=1))
+        mp = os.path.join(d, "meta.json")
+        if os.path.exists(mp):
+            meta = json.load(open(mp))
+            meta["detected_by"] = {"check": f"./check {prop} --tier {tier}", "detected": bool(rc == 1 and viol),
+                                   "violation_lines": viol[:3]}
+            json.dump(meta, open(mp, "w"), indent=1)
         return 0 if (rc == 1 and viol) else 1
     finally:
         drop(t)
@@ -116,5 +149,7 @@ def run(prop, d, tier="quick"):
 if __name__ == "__main__":
     if sys.argv[1] == "confirm":
         sys.exit(confirm(sys.argv[2]))
+    elif sys.argv[1] == "adopt":
+        sys.exit(adopt(*sys.argv[2:]))
     elif sys.argv[1] == "run":
         sys.exit(run(*sys.argv[2:]))
